@@ -15,7 +15,8 @@ type IriExpander struct {
 
 func (i *IriExpander) Expand(iri string) (string, error) {
 	isReservedKeyword := strings.HasPrefix(iri, "@")
-	compactForm := regexp.MustCompile("^[a-zA-Z-0-9\\-]+\\.[\\.(\\\\/)a-zA-Z-0-9\\-]+$")
+	// prefix.name with the characters the property path grammar allows in either part
+	compactForm := regexp.MustCompile("^[a-zA-Z-0-9_\\-]+\\.[\\.(\\\\/)a-zA-Z-0-9_\\-]+$")
 	isCompact := compactForm.MatchString(iri)
 
 	if isCompact {
